@@ -419,6 +419,29 @@ func (g *G) scenario() {
 			}
 		}
 	}
+	// complete: a well-formed plot file of the wallet - canonical name, every header check passing, header = name, and (unless
+	// map B is complete) a sound map A beside it - yields an indexed space, whatever else lies in this or another directory
+	sound := func(f file, typ, key, bl int) bool {
+		x := f.h
+		return x.sizeOk && x.codeOk && x.versionOk && x.keyParses && x.hashOk && x.typ == typ && x.bl == bl && x.key == key
+	}
+	for _, f := range fs {
+		for key := 0; key < 4 && key < nKeys; key++ {
+			for _, bl := range []int{24, 26, 28} {
+				if f.name != canonical(key, key, bl, false) || !sound(f, typB, key, bl) {
+					continue
+				}
+				okA := f.h.checkpoint >= uint64(1)<<uint(bl-1)
+				if fa, has := byName[fmt.Sprintf("%d/%s", f.dir, canonical(key, key, bl, true))]; has && sound(fa, typA, key, bl) {
+					okA = true
+				}
+				h.Res.OracleEvals++
+				if okA && seen[fmt.Sprintf("%d:%d:%d", key, key, bl)] == 0 {
+					h.Fail("C11:well-formed-plot-not-indexed", fmt.Sprintf("directory %d holds the sound plot file %s of wallet key %d (checkpoint %d), yet no space %d/%d is indexed", f.dir, f.name, key, f.h.checkpoint, key, bl))
+				}
+			}
+		}
+	}
 	for k, n := range seen {
 		if n != 1 {
 			h.Fail("C11:indexed-twice", fmt.Sprintf("space %s is indexed %d times", k, n))
